@@ -246,9 +246,18 @@ def elementPre (c : BCfg) (start : Elem) : BM (List ((Str × Str) × Tok) × Lis
     let ns ← match decodeNsAttrs c.rx ns0 with
       | some ns => pure ns
       | none => bCrash "unsupported-entity"
-    liftCB (validateAttributes ns start.nsNames TAL talWhitelist)
-    liftCB (validateAttributes ns start.nsNames METAL metalWhitelist)
-    liftCB (validateAttributes ns start.nsNames I18N i18nWhitelist)
+    -- the dictionary keys of statements written as data-<prefix>-<name> are token slices of the attribute name
+    let names : List ((Str × Str) × Tok) ← (if c.enableDataAttributes then
+        start.tag.attrs.foldlM (fun (acc : List ((Str × Str) × Tok)) a => do
+          match ← liftCB (dataTarget c.q start.nsMap dropNs a) with
+          | some key =>
+            let pfxLen := ((a.name.str.drop 5).takeWhile (· != 45)).length
+            pure (acc ++ [(key, a.name.slice (5 + pfxLen + 1) none)])
+          | none => pure acc) start.nsNames
+      else pure start.nsNames)
+    liftCB (validateAttributes ns names TAL talWhitelist)
+    liftCB (validateAttributes ns names METAL metalWhitelist)
+    liftCB (validateAttributes ns names I18N i18nWhitelist)
     pure (ns, attrs)
 
 /-- the "inside" of an element that is not a macro use: what `tal:content`, a static `i18n:translate`, `tal:omit-tag`
